@@ -102,6 +102,17 @@ func normCond(cond string, dec *recTable, spec *specRecord, forSeg bool) string 
 					p = field
 				}
 			}
+			// a one-bit field: "== 1" is "!= 0" and "!= 1" is "== 0"
+			for field, bits := range spec.DomainBits {
+				if bits != 1 {
+					continue
+				}
+				for _, rw := range [][2]string{{" == 1", " != 0"}, {" != 1", " == 0"}} {
+					if strings.HasSuffix(p, "."+field+rw[0]) {
+						p = strings.TrimSuffix(p, rw[0]) + rw[1]
+					}
+				}
+			}
 		}
 		if strings.HasSuffix(p, " > 0") {
 			continue // "only when non-empty" guard: appending / copying nothing is the same as skipping
